@@ -9,8 +9,9 @@ CONSTANTS
   FaultKinds = {"res", "wait"}
   Sequential = FALSE
   Planned = TRUE
-  MaxPlan = 36
+  MaxPlan = 14
   InitStores <- StoresDeployed
+  LateStart = TRUE
   LogSched = TRUE
   KeepLog = TRUE
   OpMenu <- MenuConcA
